@@ -6,13 +6,11 @@ func (s *Sim) preDelivery(m *txMeta) {
 		return
 	}
 	m.Shadow = nil
+	m.ModelAtShadow = s.Model.Clone()
+	s.orbDigest = digestStore(s.N.Ctx().KVStore(s.N.App.GetKey("orbiter")))
 	for _, p := range m.Pkts {
 		m.Shadow = append(m.Shadow, s.runShadows(p))
 	}
 }
-
-func (s *Sim) runShadows(p *Pkt) *shadowResult { return nil }
-
-func (s *Sim) checkShadow(m *txMeta, p *Pkt, in *PktInfo, mo *MsgObs, ack AckInfo, sh *shadowResult) {}
 
 func (s *Sim) checkpoint(op Op) {}
